@@ -110,6 +110,44 @@ def oracle(e1, e2, f1, f2, a2, layout='C'):
     return fails
 
 
+def oracle_large(seed, i):
+    """bin sets whose product exceeds 2^16 (the two bin indices are folded into one sparse coordinate): a few samples in the
+    lowest and the top bins, on edges and out of range, against a direct per-sample histogram.  returns (fails, input)"""
+    from emd import spectra
+    rs = np.random.RandomState(seed * 23 + i)
+    nb1, nb2 = [(300, 260), (256, 256), (70, 1000), (257, 255)][i % 4]
+    e1 = np.arange(nb1 + 1, dtype=float)
+    e2 = np.arange(nb2 + 1, dtype=float) / 2
+    T, M, K = 3, 2, 2
+    c1 = np.r_[-1.0, 0.0, 0.5, nb1 - 1, nb1 - 0.5, nb1, nb1 + 3, rs.randint(0, nb1, 4) + 0.25]
+    c2 = np.r_[-1.0, 0.0, 0.25, e2[-2], e2[-1] - 0.25, e2[-1], e2[-1] + 3, (rs.randint(nb2 // 2, nb2, 6) + 0.5) / 2]
+    f1, f2 = rs.choice(c1, size=(T, M)), rs.choice(c2, size=(T, M, K))
+    a2 = rs.randint(1, 5, size=(T, M, K)).astype(float)
+    inp = dict(large=[nb1, nb2], infr=f1.tolist(), infr2=f2.tolist(), inam2=a2.tolist())
+    fails = []
+    for mode in ('energy', 'amplitude'):
+        H = np.zeros((T, nb2, nb1))
+        for t in range(T):
+            for m in range(M):
+                c = int(np.floor(f1[t, m])) if 0 <= f1[t, m] < nb1 else None
+                for k in range(K):
+                    a = int(np.floor(f2[t, m, k] * 2)) if 0 <= f2[t, m, k] < e2[-1] else None
+                    if c is not None and a is not None:
+                        H[t, a, c] += a2[t, m, k] ** 2 if mode == 'energy' else a2[t, m, k]
+        try:
+            full = spectra.holospectrum(f1, f2, a2, e1, e2, mode=mode, squash_time=False)
+            ssum = spectra.holospectrum(f1, f2, a2, e1, e2, mode=mode, squash_time='sum')
+        except Exception as ex:
+            return [('holospectrum', '%d x %d bins: raised %s: %s' % (nb1, nb2, type(ex).__name__, ex))], inp
+        if full.shape != H.shape or not np.array_equal(full, H):
+            w = np.argwhere(np.asarray(full) != H)[:3].tolist() if full.shape == H.shape else []
+            fails.append(('holospectrum', '%s holospectrum with %d carrier x %d AM bins differs from the per-sample histogram (shape %s, first differing '
+                          'cells [t, am, carrier] %s; total %.6g vs %.6g)' % (mode, nb1, nb2, full.shape, w, float(np.sum(full)), float(H.sum()))))
+        elif not np.array_equal(np.asarray(ssum), H.sum(axis=0)):
+            fails.append(("holospectrum(squash_time='sum')", '%d x %d bins: differs from the sum over time of the per-sample histogram' % (nb1, nb2)))
+    return fails, inp
+
+
 def lit(c):
     e1, e2, f1, f2, a2 = c
     return '(%s, %s, %s, %s, %s)' % (zlist(e1), zlist(e2), zlistlist(f1), zl3(f2), zl3(a2))
@@ -121,7 +159,7 @@ EXPR = "fun c => let '(e1, e2, f1, f2, a2) := c in run_holo e1 e2 f1 f2 a2"
 def run(ctx):
     ctx.rule = ('integer first-level frequencies [T x M] and second-level frequency/amplitude arrays [T x M x K] with values '
                 'from {below, negative, each edge, each mid-bin, last edge, above} of two independent bin sets (linear/log, '
-                '1..4 bins), handed over C-contiguous, Fortran-ordered or as transposed views of per-IMF stacks; energy+amplitude x squash_time in {False, sum, mean}; non-trivial = some frequency out of '
+                '1..4 bins), handed over C-contiguous, Fortran-ordered or as transposed views of per-IMF stacks; energy+amplitude x squash_time in {False, sum, mean}; plus bin sets of 300x260, 256x256, 70x1000, 257x255 bins (product beyond 2^16) with samples in the lowest and top bins; non-trivial = some frequency out of '
                 'range or on an edge')
     ctx.proof(extra=['props/Prop_Tie_Spectra.v'])  # translation tie: program regenerated from the source + refinement theorems
     cases = gen_cases(ctx)
@@ -145,6 +183,12 @@ def run(ctx):
                         input=dict(freq_edges=e1, freq_edges2=e2, infr=f1, infr2=f2, inam2=a2, layout=layout))
         if common.hashL(out) != mh[idx] and bad is None and not fails:
             bad = idx
+    for i in range(4 if ctx.quick() else 60):
+        fails, inp = oracle_large(ctx.seed, i)
+        ctx.count(('large', i), True, 'large-bins-%dx%d' % tuple(inp['large']))
+        ctx.exact_cmp += 1
+        for site, detail in fails[:1]:
+            ctx.problem('impl-violation', site, detail, input=dict(inp, seed=ctx.seed, index=i))
     if bad is not None:
         c = cases[bad]
         mo = ctx.model_outputs(IMPORTS, [lit(c)], EXPR)[0]
@@ -155,6 +199,11 @@ def run(ctx):
 
 def replay(rec):
     i = rec['input']
+    if 'large' in i:
+        fails, _ = oracle_large(i['seed'], i['index'])
+        for f in fails:
+            print(f)
+        return bool(fails)
     fails = oracle(i['freq_edges'], i['freq_edges2'], i['infr'], i['infr2'], i['inam2'], layout=i.get('layout', 'C'))
     for f in fails:
         print(f)
